@@ -862,6 +862,15 @@ partial def userOp (fl : Flav) (t : Nat) (e : Ev) : M Bool := do
   | "CALL", ["exit"] => do
       exitLib t
       expectEv t "RET" ["exit"]; pure true
+  | "CALL", ["wait_worker"] => do
+      -- scenario-level wait (directed teardown scenarios): poll() until the worker has started
+      let rec w : M Unit := do
+        let e ← nextEv t "POLL / RET wait_worker"
+        if e.op == "POLL" then w
+        else if e.op == "RET" && e.args == ["wait_worker"] then pure ()
+        else P.fail "expected POLL or RET wait_worker"
+      w
+      pure true
   | _, _ => pure false
 
 partial def callRcuFull (fl : Flav) (t id : Nat) : M Unit := do
